@@ -10,6 +10,7 @@ import (
 	"fmt"
 	"os"
 	"os/exec"
+	"runtime"
 	"runtime/debug"
 	"strings"
 	"sync"
@@ -188,7 +189,17 @@ func (h *harness) concurrentRound(rng *lib.RNG, round int) {
 		ops = append(ops, o)
 	}
 	var wg sync.WaitGroup
-	var views, stateReads, outside atomic.Int64
+	var views, nonEmpty, stateReads, outside atomic.Int64
+	// the sequential oracle per actor: what a reader read through a view WHILE the writer and the other readers
+	// were running is recomputed on the same (held, immutable) view once everything is quiescent; the canonical
+	// chain below does not move in this stage, so the two must be identical
+	type sample struct {
+		v     preconfirmed.ChainReader
+		block uint64
+		at    string // reads(PreConfirmedStateAt(block)) taken concurrently
+		view  string // canonView taken concurrently
+	}
+	var samples []sample
 	readers := 6
 	for w := 0; w < readers; w++ {
 		wg.Add(1)
@@ -214,6 +225,7 @@ func (h *harness) concurrentRound(rng *lib.RNG, round int) {
 					violate("concurrent-"+msg, fmt.Sprintf("reader saw %s for head %d", msg, hd))
 				}
 				if v.Length() > 0 {
+					nonEmpty.Add(1)
 					if rr.Chance(1, 4) {
 						// the diffs of this stage are arbitrary (no overlay oracle applies); what must hold
 						// for any diffs: the state at a block and the state before index len(txs) of that
@@ -225,10 +237,19 @@ func (h *harness) concurrentRound(rng *lib.RNG, round int) {
 							if (e1 == nil) != (e2 == nil) {
 								violate("concurrent-state-at-and-before-last-index-disagree", fmt.Sprintf("PreConfirmedStateAt: %v, BeforeIndexAt(len): %v", e1, e2))
 							} else if e1 == nil {
-								if a, b := reads(sr), reads(full); a != b {
+								a, b := reads(sr), reads(full)
+								if a != b {
 									violate("concurrent-state-at-and-before-last-index-disagree", fmt.Sprintf("block %d:\n at    : %s\n before: %s", tip.Block.Number, a, b))
 								}
 								stateReads.Add(1)
+								if rr.Chance(1, 3) {
+									cv := canonView(&v)
+									mu.Lock()
+									if len(samples) < 400 {
+										samples = append(samples, sample{v: v, block: tip.Block.Number, at: a, view: cv})
+									}
+									mu.Unlock()
+								}
 							}
 							return nil
 						}); panicked {
@@ -283,6 +304,12 @@ func (h *harness) concurrentRound(rng *lib.RNG, round int) {
 			case "head":
 				head.Store(o.Head)
 			}
+			// pacing by COUNT, not by time: the next writer op waits until the readers have taken a dozen more
+			// views, so that every state of the storage is met by readers in the middle of their work (without it
+			// the writer is through its history before the readers have finished a handful of non-empty views)
+			for target := views.Load() + 4; views.Load() < target; {
+				runtime.Gosched()
+			}
 		}
 		stop.Store(true)
 		wg.Wait()
@@ -290,9 +317,32 @@ func (h *harness) concurrentRound(rng *lib.RNG, round int) {
 	stop.Store(true)
 	if !done {
 		violate("concurrent-stage-hangs", "writer/readers did not finish within 600s")
+	} else {
+		for i := range samples {
+			sm := &samples[i]
+			if now := canonView(&sm.v); now != sm.view {
+				violate("concurrent-view-read-differs-from-quiescent-read", fmt.Sprintf("a view iterated while the writer and other readers ran read %q, the same held view iterated afterwards %q", clip(sm.view), clip(now)))
+				continue
+			}
+			if err, panicked, _ := lib.Try(func() error {
+				sr, _, e := sm.v.PreConfirmedStateAt(sm.block, node.bc)
+				if e != nil {
+					violate("concurrent-state-read-differs-from-quiescent-read", fmt.Sprintf("PreConfirmedStateAt(%d) on a held view succeeded concurrently and fails afterwards: %v", sm.block, e))
+					return nil
+				}
+				if now := reads(sr); now != sm.at {
+					violate("concurrent-state-read-differs-from-quiescent-read", fmt.Sprintf("PreConfirmedStateAt(%d) through a held view, read while the writer and other readers ran:\n %s\nthe same read on the same view afterwards:\n %s", sm.block, sm.at, now))
+				}
+				return nil
+			}); panicked {
+				violate("concurrent-state-read-panics", fmt.Sprint(err))
+			}
+		}
+		h.res.HitN("concurrent-reads-rechecked-at-quiescence", len(samples))
 	}
 	h.res.HitN("concurrent-writer-ops", len(ops))
 	h.res.HitN("concurrent-reader-views", int(views.Load()))
+	h.res.HitN("concurrent-reader-views-nonempty", int(nonEmpty.Load()))
 	h.res.HitN("concurrent-state-reads-cross-checked", int(stateReads.Load()))
 	h.res.HitN("outside-contract-update-panics-in-applyupdate", int(outside.Load()))
 	h.res.Case(fmt.Sprintf("conc/%d/%d", h.f.Seed, round), true)
